@@ -156,10 +156,12 @@ Definition ds_rename_key (old new : string) (s : dset) : dset * res unit :=
   | None => (s, Err KeyError)
   | Some v =>
       if String.eqb old new then (s, Ok tt) else
+      (* a variable already stored under the new key is deleted first (with the bookkeeping of del ds[new]) *)
+      let s1 := match find_var s new with Some _ => fst (ds_delitem new s) | None => s end in
       let v' := {| vkey := new; vax := vax v; vvals := vvals v; vattrs := vattrs v |} in
-      let vars1 := put_var (dvars s) v' in
-      ({| heap := heap s; dsax := dsax s; dvars := filter (fun w => negb (String.eqb (vkey w) old)) vars1;
-          dsattrs := dsattrs s; nextid := nextid s |}, Ok tt)
+      let vars1 := put_var (dvars s1) v' in
+      ({| heap := heap s1; dsax := dsax s1; dvars := filter (fun w => negb (String.eqb (vkey w) old)) vars1;
+          dsattrs := dsattrs s1; nextid := nextid s1 |}, Ok tt)
   end.
 
 (* rename_keys(mapper) with several keys: every variable is looked up and removed before any is stored under its new name *)
